@@ -422,6 +422,8 @@ mtbl_fileset_partition(struct mtbl_fileset *f,
 	*m2 = mtbl_merger_init(f->mopt);
 
 	while (my_fileset_get(f->shared_fs->my_fs, i++, &fname, (void**) &reader)) {
+		if (reader == NULL)
+			continue;
 		if (cb(fname, clos))
 			mtbl_merger_add_source(*m1, mtbl_reader_source(reader));
 		else
